@@ -14,14 +14,17 @@ let run _args =
        | "pn", [mn; pre; md] ->
          let ((((root, st), res), mv), why) =
            PnRun.pn_run (Lazy.force iters) (Lazy.force dfuel) (n_of_string mn) (pre = "1") (z_of_string md) p in
-         (* the PN-squared model with its switch off must compute the same (tree, counters, verdict, move, stop reason)
-            as Pn.v, and no second-level trace *)
-         let ((((root2, s2), res2), mv2), why2) =
-           Pn2Run.pn2_run (Lazy.force iters) (Lazy.force dfuel) (Lazy.force iters) (Lazy.force dfuel)
-             (n_of_string mn) (pre = "1") (z_of_string md) false p in
-         if not (root2 = root && s2.Pn2.s_st = st && res2 = res && mv2 = mv && why2 = why
-                 && int_of_n s2.Pn2.s_calls = 0 && int_of_n s2.Pn2.s_searched = 0 && int_of_n s2.Pn2.s_limits = 0)
-         then ("MODEL-PN2-SWITCHED-OFF-DIFFERS-FROM-PN", None, None) else
+         (* the PN-squared model with its switch off computes the same (tree, counters, verdict, move, stop reason) as Pn.v
+            and no second-level trace: theorem C06_pn2_off_is_pn; the extracted functions are compared all the same on the
+            cheap runs (up to 200 expansions) *)
+         let same_as_pn =
+           int_of_n st.Pn.p_expanded > 200 ||
+           (let ((((root2, s2), res2), mv2), why2) =
+              Pn2Run.pn2_run (Lazy.force iters) (Lazy.force dfuel) (Lazy.force iters) (Lazy.force dfuel)
+                (n_of_string mn) (pre = "1") (z_of_string md) false p in
+            root2 = root && s2.Pn2.s_st = st && res2 = res && mv2 = mv && why2 = why
+            && int_of_n s2.Pn2.s_calls = 0 && int_of_n s2.Pn2.s_searched = 0 && int_of_n s2.Pn2.s_limits = 0) in
+         if not same_as_pn then ("MODEL-PN2-SWITCHED-OFF-DIFFERS-FROM-PN", None, None) else
          (match int_of_n why with
           | 1 -> ("PANIC", None, None)
           | 2 -> ("MODEL-OUT-OF-FUEL", None, None)
